@@ -43,8 +43,10 @@ def gen_user(rng, nmax):
     X = [[rng.randint(-3, 3) for _ in range(p)] for _ in range(n)]
     adapter = rng.choice(["change", "saving", "local"])
     k = {"change": 3, "saving": 2, "local": 4}[adapter]
+    # the inner cost of ChangeScore / LocalAnomalyScore may carry a fixed parameter too ("every composition")
+    inner = None if rng.random() < 0.5 else rng.choice([-2, 1, 3])
     return {"adapter": adapter, "n": n, "p": p, "X": X, "weight": rng.choice([1, 2, 3]), "param": rng.choice([-2, 1, 3]),
-            "cuts": gen_cuts(rng, n, k, 1, rng.randint(1, 8))}
+            "inner": inner, "cuts": gen_cuts(rng, n, k, 1, rng.randint(1, 8))}
 
 
 def impl_user(case):
@@ -57,11 +59,11 @@ def impl_user(case):
         return {"outcome": "skip:no-cuts"}
     try:
         if case["adapter"] == "change":
-            sc = ChangeScore(MultisetCost(weight=w))
+            sc = ChangeScore(MultisetCost(param=case.get("inner"), weight=w))
         elif case["adapter"] == "saving":
             sc = Saving(MultisetCost(param=prm, weight=w))
         else:
-            sc = LocalAnomalyScore(MultisetCost(weight=w))
+            sc = LocalAnomalyScore(MultisetCost(param=case.get("inner"), weight=w))
         sc.fit(X)
         cuts = np.array(case["cuts"])
         batch = sc.evaluate(cuts)
@@ -76,7 +78,8 @@ def oracle_user(case, r):
         return f"adapter raised {r['outcome']} {r.get('msg', '')}"
     X = np.array(case["X"], dtype=float)
     w, prm = case["weight"], case["param"]
-    V = lambda rows, par=None: MultisetCost.value(rows, w, par)  # noqa: E731
+    inner = case.get("inner")
+    V = lambda rows, par=inner: MultisetCost.value(rows, w, par)  # noqa: E731
     for i, c in enumerate(case["cuts"]):
         if case["adapter"] == "change":
             s, k, e = c
@@ -84,7 +87,7 @@ def oracle_user(case, r):
             what = f"C({s},{e}) - C({s},{k}) - C({k},{e})"
         elif case["adapter"] == "saving":
             s, e = c
-            want = V(X[s:e], prm) - V(X[s:e])
+            want = V(X[s:e], prm) - V(X[s:e], None)
             what = f"C_baseline({s},{e}) - C_optimal({s},{e})"
         else:
             s, a, b, e = c
@@ -93,7 +96,7 @@ def oracle_user(case, r):
         for tag in ("batch", "single"):
             got = np.array(r[tag][i])
             if not np.array_equal(got, want):
-                return (f"{case['adapter']} adapter ({tag} evaluation, cut {c}, user cost with weight={w}) gives {got.tolist()}; "
+                return (f"{case['adapter']} adapter ({tag} evaluation, cut {c}, user cost with weight={w}, param={inner if case['adapter'] != 'saving' else prm}) gives {got.tolist()}; "
                         f"{what} = {want.tolist()}")
     return None
 
@@ -105,10 +108,26 @@ def gen_builtin(rng, nmax):
     p = rng.randint(1, 3)
     n = rng.randint(6, nmax)
     scale = rng.choice([1.0, 1.0, 1e-3, 2e-5, 50.0])
-    X = [[(rng.randint(-4, 4) + rng.choice([0, 0.5, 0.25])) * scale for _ in range(p)] for _ in range(n)]
-    return {"n": n, "p": p, "X": X, "scale": scale, "cost": rng.choice(["l2", "gvar", "gcov"]),
-            "mean": rng.choice([0.0, 0.5, -1.0]) * scale, "var": rng.choice([0.5, 1.0, 4.0]) * scale * scale,
+    as_int = scale == 1.0 and rng.random() < 0.5  # integer-typed data (counts) with a fractional baseline
+    X = [[rng.randint(-4, 4) if as_int else (rng.randint(-4, 4) + rng.choice([0, 0.5, 0.25])) * scale for _ in range(p)] for _ in range(n)]
+    return {"n": n, "p": p, "X": X, "scale": scale, "cost": rng.choice(["l2", "gvar", "gcov"]), "int": as_int,
+            "mean": rng.choice([0.0, 0.5, -1.0, 2.5, 0.75]) * scale, "var": rng.choice([0.5, 1.0, 4.0]) * scale * scale,
             "seed": rng.randint(0, 10**6)}
+
+
+def direct_cost(case, rows, fixed):
+    """the cost of a set of rows from its definition (NumPy on the rows themselves; the multivariate
+    cost by a fresh fit on exactly these rows)"""
+    rows = np.asarray(rows, dtype=float)
+    m = len(rows)
+    if case["cost"] == "l2":
+        mu = case["mean"] if fixed else rows.mean(axis=0)
+        return ((rows - mu) ** 2).sum(axis=0)
+    if case["cost"] == "gvar":
+        if fixed:
+            return m * np.log(2 * np.pi * case["var"]) + ((rows - case["mean"]) ** 2).sum(axis=0) / case["var"]
+        return m * np.log(2 * np.pi * np.maximum(rows.var(axis=0), 1e-16)) + m
+    return _mk(case, fixed).fit(rows).evaluate(np.array([[0, m]]))[0]
 
 
 def _mk(case, fixed):
@@ -127,11 +146,11 @@ def impl_builtin(case):
     from skchange.anomaly_scores import L2Saving, LocalAnomalyScore, Saving
     from skchange.change_scores import CUSUM, ChangeScore
 
-    X = np.array(case["X"], dtype=float)
+    X = np.array(case["X"], dtype=np.int64 if case.get("int") else float)
     n = case["n"]
     rng = random.Random(case["seed"])
     try:
-        opt, fix = _mk(case, False).fit(X), _mk(case, True).fit(X)
+        opt = _mk(case, False).fit(X)
         ms = int(opt.min_size)
         c2 = gen_cuts(rng, n, 2, ms, 6)
         c3 = gen_cuts(rng, n, 3, ms, 6)
@@ -151,17 +170,15 @@ def impl_builtin(case):
             return sc.evaluate(np.array(cuts)).tolist() if cuts else []
 
         c3full = out["c3"]
-        C = lambda s, e, sc=opt: sc.evaluate(np.array([[s, e]]))[0]  # noqa: E731
-        out["change"] = ev(ChangeScore(_mk(case, False)).fit(X), c3full)
-        out["change_def"] = [(C(s, e) - C(s, k) - C(k, e)).tolist() for s, k, e in c3full]
+        D = lambda rows, fixed=False: direct_cost(case, rows, fixed)  # noqa: E731
+        for tag, fixed in (("", False), ("F", True)):  # the inner cost at its optimal and at a fixed parameter
+            out["change" + tag] = ev(ChangeScore(_mk(case, fixed)).fit(X), c3full)
+            out["change" + tag + "_def"] = [(D(X[s:e], fixed) - D(X[s:k], fixed) - D(X[k:e], fixed)).tolist() for s, k, e in c3full]
+            out["local" + tag] = ev(LocalAnomalyScore(_mk(case, fixed)).fit(X), c4)
+            out["local" + tag + "_def"] = [(D(X[s:e], fixed) - D(X[a:b], fixed) - D(np.concatenate((X[s:a], X[b:e])), fixed)).tolist()
+                                           for s, a, b, e in c4]
         out["saving"] = ev(Saving(_mk(case, True)).fit(X), c2)
-        out["saving_def"] = [(C(s, e, fix) - C(s, e)).tolist() for s, e in c2]
-        out["local"] = ev(LocalAnomalyScore(_mk(case, False)).fit(X), c4)
-        loc = []
-        for s, a, b, e in c4:
-            sur = np.concatenate((X[s:a], X[b:e]))
-            loc.append((C(s, e) - C(a, b) - _mk(case, False).fit(sur).evaluate(np.array([[0, len(sur)]]))[0]).tolist())
-        out["local_def"] = loc
+        out["saving_def"] = [(D(X[s:e], True) - D(X[s:e], False)).tolist() for s, e in c2]
         if case["cost"] == "l2":
             out["cusum"] = ev(CUSUM().fit(X), c3full)
             out["l2saving"] = ev(L2Saving().fit(X), c2)
@@ -184,10 +201,12 @@ def oracle_builtin(case, r):
     def close(a, b):
         return np.allclose(np.array(a, dtype=float), np.array(b, dtype=float), rtol=1e-7, atol=tol)
 
-    for name, cuts in (("change", r["c3"]), ("saving", r["c2"]), ("local", r["c4"])):
+    for name, cuts in (("change", r["c3"]), ("changeF", r["c3"]), ("saving", r["c2"]), ("local", r["c4"]), ("localF", r["c4"])):
         for c, got, want in zip(cuts, r[name], r[name + "_def"]):
             if not close(got, want):
-                return f"{name} score of {case['cost']} at cut {c} is {got}; the defining cost difference is {want}"
+                what = name.rstrip("F") + (" (inner cost at the fixed parameter)" if name.endswith("F") else "")
+                return (f"{what} score of {case['cost']} at cut {c} is {got}; the defining cost difference computed from the rows is "
+                        f"{want}" + (" (integer-typed data)" if case.get("int") else ""))
     if case["cost"] == "l2":
         for c, cu, ch in zip(r["c3"], r["cusum"], r["change"]):
             if not close(np.array(cu) ** 2, ch):
@@ -221,6 +240,88 @@ def skip_builtin(case, r):
     return None
 
 
+
+# ------------------------------------------------------------------- re-fitting (stale state)
+
+
+def gen_refit(rng, nmax):
+    p = rng.randint(1, 2)
+    n = rng.randint(5, nmax)
+    adapter = rng.choice(["change", "saving", "local", "cusum", "l2saving"])
+    k = {"change": 3, "saving": 2, "local": 4, "cusum": 3, "l2saving": 2}[adapter]
+    scen = rng.choice(["inplace", "inplace", "fresh", "shared"] if adapter in ("change", "saving", "local") else ["inplace", "fresh"])
+    mk = lambda: [[rng.randint(-3, 3) for _ in range(p)] for _ in range(n)]  # noqa: E731
+    return {"adapter": adapter, "scenario": scen, "n": n, "p": p, "X1": mk(), "X2": mk(), "weight": rng.choice([1, 2]),
+            "param": rng.choice([-2, 1, 3]), "cuts": gen_cuts(rng, n, k, 1, rng.randint(2, 6)), "eval_between": rng.random() < 0.5}
+
+
+def impl_refit(case):
+    """fit, then fit again — on the same array object whose contents were replaced in place, on a fresh
+    array, or after another adapter sharing the cost object was fitted to other data — and evaluate"""
+    from skchange.anomaly_scores import L2Saving, LocalAnomalyScore, Saving
+    from skchange.change_scores import CUSUM, ChangeScore
+
+    if not case["cuts"]:
+        return {"outcome": "skip:no-cuts"}
+    try:
+        w, prm, ad = case["weight"], case["param"], case["adapter"]
+        cost = MultisetCost(param=prm if ad == "saving" else None, weight=w)
+        sc = {"change": lambda: ChangeScore(cost), "saving": lambda: Saving(cost), "local": lambda: LocalAnomalyScore(cost),
+              "cusum": CUSUM, "l2saving": L2Saving}[ad]()
+        X = np.array(case["X1"], dtype=float)
+        cuts = np.array(case["cuts"])
+        sc.fit(X)
+        if case["eval_between"]:
+            sc.evaluate(cuts)
+        if case["scenario"] == "inplace":
+            X[...] = np.array(case["X2"], dtype=float)
+            sc.fit(X)
+            final = "X2"
+        elif case["scenario"] == "fresh":
+            sc.fit(np.array(case["X2"], dtype=float))
+            final = "X2"
+        else:  # another adapter holding the same cost object is fitted to other data in between
+            other = (LocalAnomalyScore if ad == "change" else ChangeScore)(cost)
+            other.fit(np.array(case["X2"], dtype=float))
+            sc.fit(X)
+            final = "X1"
+        return {"outcome": "ok", "final": final, "vals": sc.evaluate(cuts).tolist()}
+    except Exception as ex:
+        return {"outcome": "other:" + type(ex).__name__, "msg": str(ex)[:200]}
+
+
+def oracle_refit(case, r):
+    if r["outcome"] != "ok":
+        return f"raised {r['outcome']} {r.get('msg', '')}"
+    X = np.array(case[r["final"]], dtype=float)
+    w, prm, ad = case["weight"], case["param"], case["adapter"]
+    V = lambda rows, par=None: MultisetCost.value(rows, w, par)  # noqa: E731
+    L2 = lambda rows: ((rows - rows.mean(axis=0)) ** 2).sum(axis=0)  # noqa: E731
+    for c, got in zip(case["cuts"], r["vals"]):
+        got = np.array(got)
+        if ad == "change":
+            s, k, e = c
+            want = V(X[s:e]) - V(X[s:k]) - V(X[k:e])
+        elif ad == "saving":
+            s, e = c
+            want = V(X[s:e], prm) - V(X[s:e])
+        elif ad == "local":
+            s, a, b, e = c
+            want = V(X[s:e]) - V(X[a:b]) - V(np.concatenate((X[s:a], X[b:e])))
+        elif ad == "cusum":
+            s, k, e = c
+            got, want = got ** 2, L2(X[s:e]) - L2(X[s:k]) - L2(X[k:e])
+        else:
+            s, e = c
+            want = (X[s:e] ** 2).sum(axis=0) - L2(X[s:e])
+        if not np.allclose(got, want, rtol=1e-9, atol=1e-9):
+            how = {"inplace": "re-fitted on the same array object after its contents were replaced in place",
+                   "fresh": "re-fitted on a new array", "shared": "re-fitted after another adapter sharing its cost object was fitted to other data"}
+            return (f"{ad} score at cut {c} is {got.tolist()} after the scorer was {how[case['scenario']]}; the defining cost difference on "
+                    f"the data it was last fitted to is {np.asarray(want).tolist()}")
+    return None
+
+
 def run(chk: core.Check):
     tier = chk.tier
     N = {"quick": 1500, "thorough": 30000}[tier]
@@ -236,7 +337,10 @@ def run(chk: core.Check):
         "user: ChangeScore / Saving / LocalAnomalyScore composed with a user-defined integer cost that has an extra hyper-parameter and "
         "depends on the multiset of rows, batches of 1-8 cuts in which consecutive rows share entries, batch and single evaluation, exact; "
         "builtin: the adapters with L2 / univariate / multivariate Gaussian costs on data of scales 2e-5 .. 50 against fresh cost "
-        "evaluations, CUSUM^2 vs ChangeScore(L2), L2Saving vs Saving(L2Cost(0)), sign and ordering checks. Non-trivial = at least 2 cuts"
+        "definitions computed from the rows (inner cost at its optimal and at a fixed parameter; float and integer-typed data), CUSUM^2 vs "
+        "ChangeScore(L2), L2Saving vs Saving(L2Cost(0)), sign and ordering checks; refit: a scorer fitted, then re-fitted on the same array "
+        "object with replaced contents / on a fresh array / after a sibling adapter sharing the cost was fitted elsewhere, judged on the data "
+        "of the last fit. Non-trivial = at least 2 cuts"
     )
     chk.assumptions += ["built-in costs: 1e-7 relative tolerance; Gaussian slices with variance at the floor are skipped and counted",
                         "multivariate log-det inequalities are not proved (numeric check only)"]
@@ -249,6 +353,10 @@ def run(chk: core.Check):
     chk.run_stream("builtin", [gen_builtin(rng, 14) for _ in range(N // 2)], impl_builtin, oracle=oracle_builtin, skip=skip_builtin,
                    site="adapters/builtin", nontrivial=lambda c, r: r.get("outcome") == "ok" and len(r["c3"]) >= 2,
                    describe=lambda c: {k: v for k, v in c.items() if k != "X"} | {"X[:3]": c["X"][:3]})
+    rng = core.rng_for(chk.seed, "C06/refit")
+    chk.run_stream("refit", [gen_refit(rng, 10) for _ in range(N // 3)], impl_refit, oracle=oracle_refit, site="adapters/refit",
+                   skip=lambda c, r: r["outcome"][5:] if r["outcome"].startswith("skip:") else None,
+                   nontrivial=lambda c, r: r.get("outcome") == "ok", describe=lambda c: {k: v for k, v in c.items() if k not in ("X1", "X2")})
     return chk.finish(trusted_extra=["the translator harness/translate.py, validated numerically in the C01 check"])
 
 
@@ -261,6 +369,9 @@ def replay(path):
     if v["stream"] == "user":
         r = impl_user(case)
         print("implementation:", r, "\noracle:", oracle_user(case, r))
+    elif v["stream"] == "refit":
+        r = impl_refit(case)
+        print("implementation:", r, "\noracle:", oracle_refit(case, r))
     else:
         r = impl_builtin(case)
         print("implementation:", r, "\noracle:", oracle_builtin(case, r) if not skip_builtin(case, r) else "skipped")
